@@ -1,11 +1,13 @@
 package props
 
 import (
+	"bufio"
 	"bytes"
 	"crypto/sha512"
 	"encoding/base64"
 	"encoding/hex"
 	"fmt"
+	"io"
 	"sort"
 	"strings"
 	"sync"
@@ -956,7 +958,7 @@ func C17() *engine.Check {
 	return &engine.Check{
 		Property: "C17",
 		Level:    "model_checking",
-		Subs:     []*engine.Sub{c17RoundtripSub(), c17CountSub(), c17SizeSub(), c17PrivateSub(), c17BigBadSub(), c17CorruptSub(), c17WrongCidSub(), c17RawCarSub(), carLabelSub("C17"), c17LongIDSub(), c17SeqSub(), c17ConcSub(), concRaceSub("C17")},
+		Subs:     []*engine.Sub{c17RoundtripSub(), c17CountSub(), c17SizeSub(), c17PrivateSub(), c17BigBadSub(), c17CorruptSub(), c17WrongCidSub(), c17RawCarSub(), carLabelSub("C17"), c17LongIDSub(), c17StdReaderSub(), c17SeqSub(), c17ConcSub(), concRaceSub("C17")},
 		Assumptions: []string{
 			"token pool of 4 sealed tokens (3 signature algorithms): every subset in every insertion order; plus sets of n distinct Ed25519 delegations for every n up to 40 and around 128 and 256",
 			"the CBOR container format does not store CIDs, so a wrong CID given to AddSealed is invisible there; only CAR readers can and must detect a CID that does not hash to the data",
@@ -975,7 +977,7 @@ type c17LongIDCase struct {
 func c17LongIDSub() *engine.Sub {
 	return &engine.Sub{
 		Name:  "longest-identifiers",
-		Rule:  "a container holding a delegation whose audience is the did:key of an RSA-8192 public key (about 1430 characters, the longest identifier the DID package produces) next to two ordinary tokens, written and read in the four formats x byte-slice / stream variants: the reader holds exactly the tokens added (what the library writes it reads); non-trivial = all",
+		Rule:  "a container holding a delegation whose audience is the did:key of an RSA-8192 public key (about 1430 characters, the longest identifier the DID package produces) and a delegation whose not-before and expiration bounds lie inside one wall-clock second (nbf < exp in memory, equal on the wire) next to two ordinary tokens, written and read in the four formats x byte-slice / stream variants: the reader holds exactly the tokens added (what the library writes it reads); non-trivial = all",
 		Bound: func(string) string { return "4 formats x 2 writers x 2 readers" },
 		Gen: func(tier string, emit func(any) bool) {
 			for _, f := range []string{"car", "car64", "cbor", "cbor64"} {
@@ -991,7 +993,7 @@ func c17LongIDSub() *engine.Sub {
 		NewCase: func() any { return &c17LongIDCase{} },
 		Run: func(ctx *engine.Ctx, c any) {
 			cs := c.(*c17LongIDCase)
-			names := []string{"dlg", "dlgrsa8k", "inv"}
+			names := []string{"dlg", "dlgrsa8k", "inv", "dlgsamesec"}
 			w := container.NewWriter()
 			for _, n := range names {
 				t := ioToken(n)
@@ -1015,6 +1017,111 @@ func c17LongIDSub() *engine.Sub {
 			ctx.Outcome("ok")
 			if containerView(r) != expectedSetView(names) {
 				ctx.Failf(cs, "wrong-set/long-identifier/"+cs.Format, "reading back gives a different set")
+			}
+		},
+	}
+}
+
+// ---- the stream readers fed by standard-library readers that are not at their start ----
+
+type c17StdReaderCase struct {
+	Format string `json:"format"`
+	Flavor string `json:"flavor"`
+	Prefix int    `json:"prefix"` // bytes in front of the container that the caller has consumed already
+}
+
+func c17StdReaderSub() *engine.Sub {
+	flavors := []string{"bytes.Reader", "strings.Reader", "io.SectionReader", "bytes.Buffer", "bufio.Reader", "io.LimitedReader", "bytes.Reader-after-Seek", "io.MultiReader"}
+	return &engine.Sub{
+		Name: "standard-readers-not-at-their-start",
+		Rule: "the four stream readers fed by the standard library's own reader types positioned behind a prefix the caller has already consumed (0, 1, 7, 4096 bytes: a length header, an earlier message): *bytes.Reader and *strings.Reader after reading or seeking past the prefix, *io.SectionReader over the container's range and after a partial read, *bytes.Buffer, *bufio.Reader, *io.LimitedReader, io.MultiReader - types that also expose Size / Len / Seek / WriteTo, none of which describes what is LEFT to read: the tokens are those the byte-slice reader returns for the same bytes; non-trivial = prefix > 0",
+		Bound: func(string) string {
+			return fmt.Sprintf("4 formats x %d reader flavours x 4 prefix lengths", len(flavors))
+		},
+		Gen: func(tier string, emit func(any) bool) {
+			for _, f := range []string{"car", "car64", "cbor", "cbor64"} {
+				for _, fl := range flavors {
+					for _, p := range []int{0, 1, 7, 4096} {
+						if !emit(&c17StdReaderCase{f, fl, p}) {
+							return
+						}
+					}
+				}
+			}
+		},
+		NewCase: func() any { return &c17StdReaderCase{} },
+		Run: func(ctx *engine.Ctx, c any) {
+			cs := c.(*c17StdReaderCase)
+			names := []string{"dlg", "inv", "dlg3"}
+			data := buildContainer(cs.Format, names).Data
+			all := append(bytes.Repeat([]byte{'#'}, cs.Prefix), data...)
+			skip := func(r io.Reader) io.Reader {
+				if cs.Prefix > 0 {
+					if _, err := io.ReadFull(r, make([]byte, cs.Prefix)); err != nil {
+						panic(err)
+					}
+				}
+				return r
+			}
+			var r io.Reader
+			switch cs.Flavor {
+			case "bytes.Reader":
+				r = skip(bytes.NewReader(all))
+			case "strings.Reader":
+				r = skip(strings.NewReader(string(all)))
+			case "io.SectionReader":
+				// a section that starts one byte early, the caller having read that byte (prefix 0: the exact range)
+				lead := 0
+				if cs.Prefix > 0 {
+					lead = 1
+				}
+				sr := io.NewSectionReader(bytes.NewReader(append(all, "trailing bytes outside the section"...)), int64(cs.Prefix-lead), int64(len(data)+lead))
+				if lead > 0 {
+					sr.Read(make([]byte, 1))
+				}
+				r = sr
+			case "bytes.Buffer":
+				r = skip(bytes.NewBuffer(all))
+			case "bufio.Reader":
+				r = skip(bufio.NewReaderSize(bytes.NewReader(all), 16))
+			case "io.LimitedReader":
+				r = skip(&io.LimitedReader{R: bytes.NewReader(append(all, "beyond the limit"...)), N: int64(len(all))})
+			case "bytes.Reader-after-Seek":
+				br := bytes.NewReader(all)
+				br.Seek(int64(cs.Prefix), io.SeekStart)
+				r = br
+			default:
+				r = skip(io.MultiReader(bytes.NewReader(all[:cs.Prefix+len(data)/2]), strings.NewReader(string(all[cs.Prefix+len(data)/2:]))))
+			}
+			want, err := readContainer(data, cs.Format, false)
+			if err != nil {
+				panic(err)
+			}
+			var got container.Reader
+			switch cs.Format {
+			case "car":
+				got, err = container.FromCarReader(r)
+			case "car64":
+				got, err = container.FromCarBase64Reader(r)
+			case "cbor":
+				got, err = container.FromCborReader(r)
+			default:
+				got, err = container.FromCborBase64Reader(r)
+			}
+			ctx.States(1)
+			ctx.Eval(1)
+			ctx.Trans(1)
+			if cs.Prefix > 0 {
+				ctx.Nontrivial(1)
+			}
+			if err != nil {
+				ctx.Outcome("read-fails")
+				ctx.Failf(cs, "stream-reader-fails/"+cs.Flavor, "the %s stream reader fails on a %s positioned behind a %d-byte prefix, the byte-slice reader accepts the same bytes: %v", cs.Format, cs.Flavor, cs.Prefix, err)
+				return
+			}
+			ctx.Outcome("ok")
+			if containerView(got) != containerView(want) {
+				ctx.Failf(cs, "stream-reader-differs/"+cs.Flavor, "the %s stream reader returns another set from a %s positioned behind a %d-byte prefix than the byte-slice reader", cs.Format, cs.Flavor, cs.Prefix)
 			}
 		},
 	}
